@@ -54,6 +54,9 @@ def run(ctx, deep=False):
             tag, b = (c[0], c[1]) if isinstance(c, tuple) and len(c) >= 2 else ("?", c)
             if isinstance(b, (bytes, bytearray)) and str(tag).startswith("sent") and 10 <= len(b) <= 120:
                 frames.append(bytes(b))
+        # frames of types the client does not know (delivered as unsupported messages): cut like any other
+        for mid, n_pl in ((0x7E, 3), (0x01, 9), (0x7E, 0)):
+            frames.append(bytes(real.raw_frame(mid, bytes(range(1, n_pl + 1)))))
         rng.shuffle(frames)
         streams = []
         for i in range(0, min(len(frames), 90 if thorough else 24), 1):
